@@ -91,8 +91,10 @@ ASSUMPTIONS = [
     'dependence that the generated cases do not reach is not detected. valgrind covers the serial binary only',
     'libc fact, trusted: rand() without srand() returns the same sequence in every run of the same binary '
     '(rand_stream_never_seeded shows no seeding call exists); each MPI rank has its own stream; the RCB rotation '
-    'consumes it on rank 0 only. The native RCB partitioner itself is NOT modelled here (hook in Props/C18Mech; '
-    'package rcb): that its assignment is a valid partition for any stream is not claimed by this check',
+    'consumes it on rank 0 only. The native RCB partitioner itself is NOT modelled in this check (hook in '
+    'Props/C18Mech): package rcb proves in Props/C04Rcb that its assignment is a function of (owned coordinates, rand '
+    'values, seed, np) and a valid partition for ANY stream (rcb_part_deterministic, rcb_part_total) and ties it with a '
+    'harness-defined rand(); until that module is listed in PROPS_MODULE here, nothing about RCB is claimed by C18',
     'order independence of the wall distance holds in exact real arithmetic (C12 exactness); in floating point the '
     'distance kernels are evaluated on the same element for every order, so the bits agree unless two different '
     'elements are at distances that differ in the last bits AND pruning (inflated by 1+1e-8) drops one of them - '
